@@ -53,7 +53,7 @@ theorem preload_articles_hidden (preloads : List Eval) (target : Eval)
 /-- the syntactic facts about main.go the model rests on -/
 theorem main_facts :
     Gen.mainLoadReturnsBeforeOutput = true ∧ Gen.mainHintsFilteredByFile = true ∧ Gen.mainPreloadIsLoad = true ∧
-    Gen.mainTargetIsNotLoad = true ∧ Gen.mainPreloadBeforeTarget = true := by decide
+    Gen.mainTargetIsNotLoad = true ∧ Gen.mainPreloadBeforeTarget = true ∧ Gen.mainCleanBeforePreload = true := by decide
 
 /-- non-vacuity -/
 example : checkRound [⟨"p.rb".toList, [(1, "boom".toList)], [("p.rb".toList, 1, "sig".toList)]⟩]
